@@ -63,6 +63,24 @@ Theorem C08_timer_restart : forall (T : Type) (TI : Time T) (s : timer T) c dur,
 Proof. intros T TI. exact w_restart_spec. Qed.
 Print Assumptions C08_timer_restart.
 
+(* Construction: the period is exactly [start, start + duration] on the timer's
+   own clock, start = the given one or the (last) reading of that clock.  For
+   AsyncTimer the wall-clock reading its constructor takes first never enters. *)
+Theorem C08_init : forall (T : Type) (TI : Time T) (wall r1 r2 st dur : T) (c : clock T) retro,
+  w_init (r1 :: r2 :: c) dur None = ({| w_start := r2; w_stop := tadd r2 dur |}, c) /\
+  w_init c dur (Some st) = ({| w_start := st; w_stop := tadd st dur |}, c) /\
+  a_init wall (r1 :: c) dur None = ({| w_start := r1; w_stop := tadd r1 dur |}, c) /\
+  a_init wall c dur (Some st) = ({| w_start := st; w_stop := tadd st dur |}, c) /\
+  m_init (r1 :: r2 :: c) dur None retro =
+    ({| m_start := r2; m_stop := tadd r2 dur; m_last := r1; m_retro := retro |}, c) /\
+  m_init c dur (Some st) retro =
+    ({| m_start := st; m_stop := tadd st dur; m_last := st; m_retro := retro |}, c) /\
+  (forall now d0 s0, y_init now d0 s0 =
+     let st := match s0 with Some x => x | None => match now with Some n => n | None => tzero end end in
+     {| y_start := Some st; y_stop := tadd st (dur_or d0 tzero) |}).
+Proof. intros. repeat split. Qed.
+Print Assumptions C08_init.
+
 (* MonoTimer: restart is Timer's (and does not touch _last) *)
 Theorem C08_mono_restart : forall (T : Type) (TI : Time T) (s : mono T) c dur,
   m_step s c (MRestart dur) =
